@@ -104,8 +104,40 @@ def run(rep):
         ]
         for inst, ok, msg in checks:
             rep.check(ok, "C02-R3", ab.def_, "abort:" + inst, msg, line=s.line, detail={"guards": g})
+    # ---- R7 at least one reply: once a pending call is marked aborted / removed, the reply is reached on every path
+    #         (unless the caller is gone, or the call was already answered at abort time)
+    ab_sends = [s for s in cfr if s.body.name == "abort_call"]
+    marks = []
+    for i in ab.live_blocks():
+        for st in ab.blocks[i]["s"]:
+            if st["d"][-1:] == [".aborted"] and st["r"]["k"] == "use" and (mir.op_const(st["r"]["o"][0]) or {}).get("repr") in ("true", "const true"):
+                marks.append(i)
+    gone = ab.edges_matching([r"^None=discr\(self\.conns\[self\.function_calls\[callee_serial\]\.0\.caller_conn_id\]\)$"])
+    ok = bool(marks) and len(ab_sends) == 1 and bool(gone)
+    if ok:
+        ok = not any(set(ab.exits()) & ab.reachable(m, without_nodes={ab_sends[0].bb}, without_edges=gone) for m in marks)
+    rep.check(ok, "C02-R7", ab.def_, "abort-always-answers", "after `call.aborted = true` every path must reach the Aborted reply to the caller (unless the caller's connection is gone): otherwise the caller gets no reply at all — the owner's later reply is dropped as aborted",
+              line=ab.span, detail={"marks": len(marks), "caller_gone_edges": len(gone)})
+    rmv = [c for c in cr.calls if c.name == "remove" and any_match(cr.describe(c.args[0]), r"^self\.function_calls\.entry\(req\.serial\)")]
+    cut = cr.edges_matching([r"^True=self\.function_calls\.entry\(req\.serial\)\.0\.remove\(\)\.aborted$", r"^None=discr\(self\.conns\[self\.function_calls\.entry\(req\.serial\)\.0\.remove\(\)\.caller_conn_id\]\)$"])
+    ok = len(rmv) == 1 and bool(fw) and len(cut) == 2
+    if ok:
+        ok = not (set(cr.exits()) & cr.reachable(rmv[0].bb, without_nodes={fw[0].bb}, without_edges=cut))
+    rep.check(ok, "C02-R7", cr.def_, "removed-entry-is-answered", "once the pending entry was removed every path must forward the reply, except when the call was aborted (answered then) or the caller is gone", line=cr.span,
+              detail={"cut_edges": len(cut)})
+
     rs = M["remove_service"]
     pushes = [c for c in rs.calls if c.name == "push_remove_function_call"]
+    rrm = [c for c in rs.calls if c.name == "remove" and any_match(rs.describe(c.args[0]), r"^self\.function_calls$")]
+    cut = rs.edges_matching([r"^True=.*function_calls\.remove\(.*aborted$", r"^None=discr\(self\.function_calls\.remove\("])
+    ok = len(rrm) == 1 and len(pushes) == 1 and len(cut) >= 1
+    if ok:
+        # from the removal, neither the next iteration nor the exit is reachable without queueing the reply
+        nxt = [c.bb for c in rs.calls if c.name == "next"]
+        r_ = rs.reachable(rrm[0].bb, without_nodes={pushes[0].bb}, without_edges=cut)
+        inner = [n for n in nxt if rs.reaches(rrm[0].bb, n) and rs.reaches(n, rrm[0].bb)]
+        ok = bool(inner) and not (set(inner) & r_) and not (set(rs.exits()) & r_)
+    rep.check(ok, "C02-R7", rs.def_, "removed-call-is-answered", "every pending call removed together with its service must be queued for an InvalidService reply unless it was aborted", line=rs.span, detail={"cut_edges": len(cut)})
     rep.check(len(pushes) == 1, "C02-R3", rs.def_, "push-count", "remove_service must queue InvalidService at exactly one site", detail={"n": len(pushes)})
     for c in pushes:
         g = rs.guard_strings(c.bb)
